@@ -35,3 +35,14 @@ Theorem C15_plan_fits_all_files : forall o n,
   filter (fun a => match a with AFitFile _ => true | _ => false end) (run_plan o n) =
   map AFitFile (seq 0 n).
 Proof. exact run_plan_fits. Qed.
+
+(* the complete case table of the output-directory validation *)
+From BB Require Import Proofs.CliTable.
+Theorem C15_validate_table : forall ex isd ne ow,
+  (validate_out ex isd ne ow = VdOk <-> (ex = false \/ (isd = true /\ ne = false))) /\
+  (validate_out ex isd ne ow = VdCleared <->
+     (ex = true /\ isd = true /\ ne = true /\ ow = true)) /\
+  (validate_out ex isd ne ow = VdErrHasFiles <->
+     (ex = true /\ isd = true /\ ne = true /\ ow = false)) /\
+  (validate_out ex isd ne ow = VdErrNotDir <-> (ex = true /\ isd = false)).
+Proof. exact validate_total. Qed.
